@@ -177,6 +177,17 @@ def run_row(item):
                  "many-strings-then-number": '"s" ' * 20 + "1", "nested-functions": "f(" * 12 + "1" + ")" * 12 + " x"}[r["shape"]]
         text = "a { %s: %s }" % (r["name"], shape)
         o = observe(text, "string", comments=opts[0], validate=True)
+    elif k == "wide":
+        n = r["n"]
+        text = {"value-space": "a { x: " + "b " * n + "}", "value-comma": "a { x: " + "1, " * n + "1 }", "value-slash": "a { x: " + "1/" * n + "1 }",
+                "selector-list": ", ".join("a%d" % i for i in range(n)) + " { left: 0 }", "compound-selector": "a" + ".c" * n + " { left: 0 }",
+                "descendants": "a " * n + "{ left: 0 }", "media-list": "@media " + ", ".join(["print", "tv", "screen and (color)"] * (n // 3)) + " { a { left: 0 } }",
+                "import-media": '@import "x.css" ' + ", ".join(["print", "tv"] * (n // 2)) + ";", "declarations": "a { " + "left: 0; " * n + "}",
+                "rules": "a { left: 0 } " * n, "function-args": "a { x: f(" + "1, " * n + "1) }", "media-rules": "@media print { " + "a { left: 0 } " * n + "}",
+                "margin-boxes": "@page { " + "@top-left { left: 0 } " * n + "}", "variables": "@variables { " + "".join("v%d: 1; " % i for i in range(n)) + "}",
+                "comments": "/*c*/ " * n + "a { left: 0 }", "namespaces": "".join('@namespace p%d "u%d"; ' % (i, i) for i in range(n)) + "a { left: 0 }",
+                "imports": '@import "x.css"; ' * min(n, 300) + "a { left: 0 }"}[r["what"]]
+        o = observe(text, "string", comments=opts[0], validate=opts[1])
     elif k == "longrun":
         op = RUN_OPEN[r["opener"]]
         text = op[0] + RUN_BODY[r["body"]] * r["n"] + {"eof": "", "newline-rule": "\nb { top: 0 }", "closer": op[1], "junk": " \x01 ) ] } ;"}[r["end"]]
